@@ -345,6 +345,13 @@ func (w *l1World) opDeposit(rt *rapid.T) *l1Step {
 	sender := w.user(rt, "sender")
 	denom := w.denoms[rapid.IntRange(0, len(w.denoms)-1).Draw(rt, "denom")]
 	amt := w.drawAmount(rt, w.e.Balance(sender.Addr, denom))
+	if b, ok := w.bridges[id]; ok && len(b.Pairs) > 0 && rapid.IntRange(0, 11).Draw(rt, "twinDenom") == 0 {
+		// the deposit names the token by the name it has on L2 (nobody holds coins of that name on L1)
+		denom = ref.L2Denom(id, denom)
+		if amt.IsZero() {
+			amt = math.OneInt()
+		}
+	}
 	to := w.drawRecipientString(rt)
 	data := rapid.SliceOfN(rapid.Byte(), 0, 24).Draw(rt, "data")
 	coin := sdk.Coin{Denom: denom, Amount: amt}
